@@ -73,4 +73,37 @@ theorem dedup_eq_self_of_nodup {α} [DecidableEq α] (l : List α) (h : l.Nodup)
     simp only [dedup, ih hb.2]
     simp [hb.1]
 
+/-! ### Option-valued mapM (Go: return the error at the first bad element) -/
+
+theorem mapM_option_spec {α β} (f : α → Option β) : ∀ (l : List α) (out : List β), l.mapM f = some out →
+    out.length = l.length ∧ ∀ i (hi : i < l.length) (ho : i < out.length), f l[i] = some out[i] := by
+  intro l
+  induction l with
+  | nil => intro out h; simp at h; subst h; simp
+  | cons a l ih =>
+    intro out h
+    rw [List.mapM_cons] at h
+    cases ha : f a with
+    | none => simp [ha] at h
+    | some b =>
+      cases hl : l.mapM f with
+      | none => simp [ha, hl] at h
+      | some bs =>
+        simp [ha, hl] at h
+        subst h
+        obtain ⟨h1, h2⟩ := ih bs hl
+        refine ⟨by simp [h1], ?_⟩
+        intro i hi ho
+        cases i with
+        | zero => simpa using ha
+        | succ j => simpa using h2 j (by simpa using hi) (by simpa using ho)
+theorem mapM_option_none {α β} (f : α → Option β) (l : List α) (a : α) (ha : a ∈ l) (hf : f a = none) : l.mapM f = none := by
+  induction l with
+  | nil => simp at ha
+  | cons b l ih =>
+    rw [List.mapM_cons]
+    rcases List.mem_cons.mp ha with rfl | h
+    · simp [hf]
+    · cases f b <;> simp [ih h]
+
 end SpatialId
